@@ -241,6 +241,9 @@ def backend_case(tape: Tape) -> dict:
         noise.update(p_false_pos=pfp, p_false_neg=pfn)
     others = [k for k in ("correlation_matrix", "occupation", "energy", "energy_variance") if tape.bool(0.5, f"with_{k}")]
     obs = [{"kind": k, "times": times} for k in others] + [{"kind": "bitstrings", "times": times, "shots": shots}]
+    if be == "mps" and n >= 3 and tape.bool(0.4, "with_entropy"):
+        # observables that move the orthogonality centre of the shared state object (and have to put it back)
+        obs.append({"kind": "entanglement_entropy", "times": times, "site": tape.int(1, n - 2, "entropy_site")})
     order = tape.permutation(len(obs), "obs_order")
     obs = [obs[i] for i in order]
     backend = "sv" if be.startswith("sv") else "mps"
